@@ -94,11 +94,21 @@ Proof. vm_compute. reflexivity. Qed.
 Lemma ident_ok_valid n : ident_ok n = true -> valid_identifier n = true.
 Proof.
   intro H. unfold valid_identifier, strip_bom.
-  destruct n as [|a [|b [|c r]]]; try exact H.
-  destruct ((a =? 239) && (b =? 187) && (c =? 191)) eqn:E; [|exact H].
+  destruct n as [|a [|b [|c r]]]; try (rewrite H, Nat.eqb_refl; reflexivity).
+  destruct ((a =? 239) && (b =? 187) && (c =? 191)) eqn:E; [|rewrite H, Nat.eqb_refl; reflexivity].
   apply andb_true_iff in E as [E E3]. apply andb_true_iff in E as [E1 E2].
   apply Z.eqb_eq in E1, E2, E3. subst a b c.
   unfold ident_ok in H. rewrite ident_len_bom in H. simpl in H. discriminate.
+Qed.
+
+(* since the length check, ValidIdentifier is exactly "one identifier token" *)
+Lemma valid_identifier_ident_ok n : valid_identifier n = ident_ok n.
+Proof.
+  destruct (ident_ok n) eqn:H; [apply ident_ok_valid; exact H|].
+  unfold valid_identifier, strip_bom.
+  destruct n as [|a [|b [|c r]]]; try (rewrite H; reflexivity).
+  destruct ((a =? 239) && (b =? 187) && (c =? 191)); [|rewrite H; reflexivity].
+  apply andb_false_iff. right. apply Nat.eqb_neq. simpl. lia.
 Qed.
 
 Lemma ident_ok_nonempty n : ident_ok n = true -> str_eqb n [] = false.
